@@ -162,10 +162,8 @@ mutual
       let (nm, ps) ← callJsName name inTell (.s (commaJoinRev l))
       if fm ∧ nm == Name.s (S "me") then
         -- for s in pars.operands: oplist.append(str(s.generate_js())); nm = 'this.' + s.name ; oplist.pop()
-        match ops.reverse with
-        | [] => .error .index
-        | lastOp :: _ => do
-          let ln ← (if gv then symToGv lastOp else lastOp).name
+        do
+          let ln ← lastNameGv gv ops              -- nm = 'this.' + s.name of the last s; oplist.pop() on [] raises
           let lns ← ln.asStr
           let _ ← jsNames ops
           callJsCode (.s (S "this." ++ lns)) (.s (commaJoinRev l.dropLast))
